@@ -374,7 +374,11 @@ type monitor struct {
 	// between its steps and every request verdict is also compared with the
 	// verdict of the cache-off twin storage.
 	alias *aliasHist
+	// keyPrefix is prepended to the violation keys of runProbe (delivery histories).
+	keyPrefix string
 }
+
+func (mo *monitor) viol(key, what string, witness any) { mo.r.Violation(mo.keyPrefix+key, what, witness) }
 
 func (mo *monitor) pair(winner string, cands []string) (losers []string) {
 	skipped := false
@@ -399,7 +403,9 @@ func TestCheck(t *testing.T) {
 		"filterstorage.Default; per world 6 profile configurations (one per blocking shape) + 2 anonymous filtering-group configurations with random switches; " +
 		"per configuration one probe per base name with random subdomain/case/qtype/EDNS; every probe is evaluated at Storage.ForConfig (request and response verdict) " +
 		"and behind the full dnssvc stack; per cache-enabled world and configuration up to 10 cache-alias histories (fresh host asked for two qtypes congruent mod 256, "+
-		"e.g. A/CAA/DLV, in both orders, no cache clearing, each step also compared with a cache-off twin storage). distinct = (winner class, sorted loser classes, blocking shape, qtype class, level); non-trivial = at least one losing " +
+		"e.g. A/CAA/DLV, in both orders, no cache clearing, each step also compared with a cache-off twin storage); per world two delivery histories of three profiles each "+
+		"(profiles streamed by an in-process gRPC backend through the real backendpb.ProfileStorage into a real profiledb.Default: full sync, probes, custom rules change, "+
+		"delivered by an incremental / by a second full sync, same probes; the evaluator follows the rules sent last). distinct = (winner class, sorted loser classes, blocking shape, qtype class, level); non-trivial = at least one losing " +
 		"candidate source matched the same probe (a precedence decision was actually made)")
 	r.Assume("the safety filters (hash-prefix and safe-search) act on A, AAAA and HTTPS questions only (documented in hashprefix.isFilterable / safesearch.FilterRequest)")
 	r.Assume("a hash-prefix filter matches a name when the name or one of its parent domains (names here have <= 4 labels) is listed; safe-search rules '|d^' match exactly d")
@@ -415,6 +421,12 @@ func TestCheck(t *testing.T) {
 	fx := newFixture()
 	defer fx.srv.Close()
 	mo := &monitor{r: r, matrix: map[string]int64{}}
+	dl, dlErr := newDelivery()
+	if dlErr != nil {
+		r.Inconclusive("delivery: cannot start the in-process backend: " + dlErr.Error())
+	} else {
+		defer dl.stop()
+	}
 
 	nWorlds := r.N(30, 1500)
 	nProbes := r.N(len(scenarios)+nNoiseNames+4, len(scenarios)+nNoiseNames+20)
@@ -470,6 +482,9 @@ func TestCheck(t *testing.T) {
 			}
 		}
 		mo.runAliasHistories(w, cfgs, st, srvs, grps, r.Rand("alias", wi))
+		if dl != nil {
+			mo.deliveryHistories(dl, w, cfgs, r.Rand("delivery", wi))
+		}
 		if es := w.errs.take(); len(es) > 0 {
 			r.Bucket("errcoll_during_probes", int64(len(es)))
 			r.Extra("errcoll_example", es[0])
@@ -492,6 +507,10 @@ func TestCheck(t *testing.T) {
 			r.Require("stack_blocked_"+ttl+"_"+s, 15)
 		}
 	}
+	r.Require("delivery_sync_update_by_full", int64(nWorlds))
+	r.Require("delivery_sync_update_by_incremental", int64(nWorlds))
+	r.Require("delivery_discriminating_probes_updated-by-full-sync", int64(nWorlds*6))
+	r.Require("delivery_discriminating_probes_updated-by-incremental-sync", int64(nWorlds*6))
 	r.Require("alias_histories_discriminating", int64(nWorlds*3))
 	r.Require("alias_histories_discriminating_shared_list_or_service", int64(nWorlds*2))
 	r.Require("alias_twin_comparisons", int64(nWorlds*9))
@@ -696,7 +715,7 @@ func (mo *monitor) runProbe(w *world, c *cfg, st *stack.Stack, srv *agd.Server, 
 	}
 	defer func() {
 		if pn := recover(); pn != nil {
-			r.Violation("panic:probe", fmt.Sprintf("panic while filtering a legal question: %v", pn), witness(nil))
+			mo.viol("panic:probe", fmt.Sprintf("panic while filtering a legal question: %v", pn), witness(nil))
 		}
 	}()
 
@@ -718,7 +737,7 @@ func (mo *monitor) runProbe(w *world, c *cfg, st *stack.Stack, srv *agd.Server, 
 	var reqWinner string
 	if v.Filtering && c.msgs == nil {
 		r.Bucket("direct_skipped_constructor_refused", 1)
-		r.Violation("verdict:profile-constructor-refused", "dnsmsg.NewConstructor refuses the blocking mode / filtered-response TTL of a legal profile: "+c.msgsErr,
+		mo.viol("verdict:profile-constructor-refused", "dnsmsg.NewConstructor refuses the blocking mode / filtered-response TTL of a legal profile: "+c.msgsErr,
 			witness(nil))
 	}
 	if v.Filtering && c.msgs != nil {
@@ -730,7 +749,7 @@ func (mo *monitor) runProbe(w *world, c *cfg, st *stack.Stack, srv *agd.Server, 
 		reqRes, err = f.FilterRequest(ctx, &filter.Request{DNS: p.msg(uint16(pi + 1)), Messages: c.msgs, RemoteIP: remote.Addr(),
 			Host: p.Host, QType: p.QType, QClass: dns.ClassINET})
 		if err != nil {
-			r.Violation("verdict:req:error", "FilterRequest returned an error for a legal question: "+err.Error(), witness(nil))
+			mo.viol("verdict:req:error", "FilterRequest returned an error for a legal question: "+err.Error(), witness(nil))
 			return
 		}
 		if mo.alias != nil && w.ref != nil {
@@ -740,7 +759,7 @@ func (mo *monitor) runProbe(w *world, c *cfg, st *stack.Stack, srv *agd.Server, 
 				RemoteIP: remote.Addr(), Host: p.Host, QType: p.QType, QClass: dns.ClassINET})
 			r.Bucket("alias_twin_comparisons", 1)
 			if rerr != nil || vkit.JSON(observedOf(refRes)) != vkit.JSON(observedOf(reqRes)) {
-				r.Violation("cache-alias:req-verdict-differs-from-cache-off-twin:"+mo.alias.Order,
+				mo.viol("cache-alias:req-verdict-differs-from-cache-off-twin:"+mo.alias.Order,
 					"after an earlier question for the same host whose qtype is congruent modulo 256, the storage with result caches on gives another "+
 						"request verdict than the same storage with the rule-list result caches off",
 					witness(map[string]any{"observed_cache_on": observedOf(reqRes), "observed_cache_off": observedOf(refRes), "expected": reqAlts}))
@@ -759,7 +778,7 @@ func (mo *monitor) runProbe(w *world, c *cfg, st *stack.Stack, srv *agd.Server, 
 			}
 		}
 		if matched < 0 {
-			r.Violation(fmt.Sprintf("verdict:req:expected=%s:observed=%s", kindsOf(reqAlts), classOf(reqRes)),
+			mo.viol(fmt.Sprintf("verdict:req:expected=%s:observed=%s", kindsOf(reqAlts), classOf(reqRes)),
 				"request verdict at Storage.ForConfig differs from the documented precedence: "+why,
 				witness(map[string]any{"expected": reqAlts, "observed": observedOf(reqRes), "candidates": reqCands}))
 			return
@@ -779,7 +798,7 @@ func (mo *monitor) runProbe(w *world, c *cfg, st *stack.Stack, srv *agd.Server, 
 		resp.Answer = upstreamAnswer(p.QName, p.QType)
 		respRes, err := f.FilterResponse(ctx, &filter.Response{DNS: resp, RemoteIP: remote.Addr()})
 		if err != nil {
-			r.Violation("verdict:resp:error", "FilterResponse returned an error: "+err.Error(), witness(nil))
+			mo.viol("verdict:resp:error", "FilterResponse returned an error: "+err.Error(), witness(nil))
 			return
 		}
 		ok := false
@@ -789,7 +808,7 @@ func (mo *monitor) runProbe(w *world, c *cfg, st *stack.Stack, srv *agd.Server, 
 			}
 		}
 		if !ok {
-			r.Violation(fmt.Sprintf("verdict:resp:expected=%s:observed=%s", kindsOf(respAlts), classOf(respRes)),
+			mo.viol(fmt.Sprintf("verdict:resp:expected=%s:observed=%s", kindsOf(respAlts), classOf(respRes)),
 				"response verdict at Storage.ForConfig differs from matching the answer's A/AAAA/CNAME targets against the lists (allow beats block)",
 				witness(map[string]any{"expected": respAlts, "observed": observedOf(respRes), "candidates": respCands}))
 			return
@@ -822,11 +841,11 @@ func (mo *monitor) runProbe(w *world, c *cfg, st *stack.Stack, srv *agd.Server, 
 	out := st.Serve(sreq)
 	defer st.Forget(out)
 	if out.Panic != nil {
-		r.Violation("panic:stack", fmt.Sprintf("panic in the stack for a legal question: %v", out.Panic), witness(nil))
+		mo.viol("panic:stack", fmt.Sprintf("panic in the stack for a legal question: %v", out.Panic), witness(nil))
 		return
 	}
 	if out.Err != nil || len(out.Responses) != 1 {
-		r.Violation("stack:no-single-response", fmt.Sprintf("stack wrote %d responses, err=%v", len(out.Responses), out.Err), witness(nil))
+		mo.viol("stack:no-single-response", fmt.Sprintf("stack wrote %d responses, err=%v", len(out.Responses), out.Err), witness(nil))
 		return
 	}
 	got := out.Resp()
@@ -847,14 +866,14 @@ func (mo *monitor) runProbe(w *world, c *cfg, st *stack.Stack, srv *agd.Server, 
 		obs["errors_collected"] = es
 		for _, e := range es {
 			if strings.Contains(e, "creating constructor for profile") {
-				r.Violation("stack:profile-constructor-error", "the per-profile message constructor could not be created for a legal profile, "+
+				mo.viol("stack:profile-constructor-error", "the per-profile message constructor could not be created for a legal profile, "+
 					"so the requester is served with the server-wide blocking mode and TTL instead of its own: "+e,
 					witness(map[string]any{"observed": obs}))
 			}
 		}
 	}
 	if len(got.Question) != 1 || got.Question[0] != q || got.Id != uint16(1000+pi) {
-		r.Violation("stack:question-or-id", "response does not carry the original question and ID", witness(map[string]any{"observed": obs, "question": got.Question}))
+		mo.viol("stack:question-or-id", "response does not carry the original question and ID", witness(map[string]any{"observed": obs, "question": got.Question}))
 		return
 	}
 
@@ -913,7 +932,7 @@ func (mo *monitor) runProbe(w *world, c *cfg, st *stack.Stack, srv *agd.Server, 
 		if strings.HasPrefix(subkey, "blocked:") {
 			key += ":mode=" + c.Mode.Shape + ":qtype=" + qtClass(p.QType)
 		}
-		r.Violation(key, "message written behind the full stack is not what the documented precedence and the requester's blocking mode give: "+
+		mo.viol(key, "message written behind the full stack is not what the documented precedence and the requester's blocking mode give: "+
 			strings.Join(problems, " / "),
 			witness(map[string]any{"expected_request_verdicts": reqAlts, "expected_response_verdicts": respAlts, "observed": obs}))
 		return
